@@ -39,6 +39,8 @@ let engines : (string * (z list -> (z list * z list) list -> verdict)) list = [
   ("maptree", chk_maptree);
   ("nested", chk_nested);
   ("codecinl", chk_codecinl);
+  ("itermap", chk_itermap);
+  ("mapbatch", chk_mapbatch);
 ]
 
 let () =
